@@ -1,6 +1,7 @@
 import CorsVerif.Model.Ix
 import CorsVerif.Proofs.Pattern
 import CorsVerif.Proofs.Tree
+import CorsVerif.Proofs.ACRH
 /-
   Refinement: the index-level programs of Model/Ix.lean return `.ok` of what the list-level model
   returns, for every input.  `.ok` means: no index or slice expression was out of range and every
@@ -947,6 +948,154 @@ theorem first_refines (v : Option (List Bytes)) :
       simp only [bind, Except.bind]
       rw [h2]
       rfl
+
+theorem indexAfter_refines (set : SortedSet) (start : Nat) (hs : start ≤ set.size) (e : Bytes) :
+    indexAfter set ((start : Int) - 1) e = .ok ((set.indexAfter start e).map (fun (i : Nat) => Int.ofNat i)) := by
+  unfold indexAfter SortedSet.indexAfter
+  by_cases hm : set.maxLen < e.length
+  · simp only [hm, if_true]; rfl
+  · simp only [hm, if_false]
+    have hsl : sliceG set.elems ((start : Int) - 1 + 1) (lenG set.elems) = .ok (set.elems.drop start) := by
+      unfold sliceG lenG
+      unfold SortedSet.size at hs
+      rw [if_pos (by omega)]
+      have : ((start : Int) - 1 + 1).toNat = start := by omega
+      simp [this]
+    rw [hsl]
+    simp only [bind, Except.bind]
+    cases SortedSet.findIdx e (set.elems.drop start) with
+    | none => rfl
+    | some i =>
+      simp only [Option.map_some, pure, Except.pure]
+      congr 2
+      simp; omega
+
+
+theorem cutAtComma_shrinks (str : Bytes) (n : Nat) (before after : Bytes)
+    (h : Headers.cutAtComma str n = (before, after, true)) : after.length < str.length := by
+  unfold Headers.cutAtComma at h
+  cases hc : Bytes.cutAt Headers.comma (str.take n) with
+  | none => simp [hc] at h
+  | some p =>
+    obtain ⟨b', a'⟩ := p
+    simp only [hc, Prod.mk.injEq] at h
+    obtain ⟨rfl, rfl, _⟩ := h
+    obtain ⟨h1, _⟩ := ACRH.cutAt_some hc
+    have := congrArg List.length h1
+    simp only [List.length_take, List.length_append, List.length_cons] at this
+    simp only [List.length_drop]
+    omega
+
+theorem indexAfter_lt (set : SortedSet) (start : Nat) (e : Bytes) (i : Nat)
+    (h : set.indexAfter start e = some i) : i < set.size := by
+  unfold SortedSet.indexAfter at h
+  split at h
+  · cases h
+  · cases hf : SortedSet.findIdx e (set.elems.drop start) with
+    | none => simp [hf] at h
+    | some j =>
+      simp only [hf, Option.map_some, Option.some.injEq] at h
+      obtain ⟨pre, post, h1, h2, _⟩ := ACRH.findIdx_some hf
+      have hl := congrArg List.length h1
+      simp only [List.length_drop, List.length_append, List.length_cons] at hl
+      unfold SortedSet.size
+      omega
+
+theorem checkLine_refines (set : SortedSet) (maxLen : Nat) : ∀ (fuel : Nat) (acrh : Bytes) (st : Headers.CkState),
+    acrh.length < fuel → st.start ≤ set.size →
+    checkLine set maxLen fuel acrh ((st.start : Int) - 1, st.empties)
+      = .ok ((Headers.checkLine set maxLen fuel acrh st).map fun s => ((s.start : Int) - 1, s.empties)) ∧
+    ∀ s', Headers.checkLine set maxLen fuel acrh st = some s' → s'.start ≤ set.size := by
+  intro fuel
+  induction fuel with
+  | zero => intro acrh st hf; omega
+  | succ fuel ih =>
+    intro acrh st hf hs
+    simp only [checkLine, Headers.checkLine]
+    rw [cutAtComma_refines]
+    simp only [bind, Except.bind]
+    cases hcut : Headers.cutAtComma acrh maxLen with
+    | mk name rest2 =>
+      obtain ⟨rest, commaFound⟩ := rest2
+      simp only []
+      rw [trimOWS_refines]
+      simp only []
+      cases htrim : Headers.trimOWS name Facts.headers_MaxOWSBytes with
+      | none => exact ⟨rfl, by intro s' h; cases h⟩
+      | some nm =>
+        simp only []
+        have hrest : commaFound = true → rest.length < fuel := by
+          intro hcf
+          subst hcf
+          have := cutAtComma_shrinks acrh maxLen name rest hcut
+          omega
+        by_cases hemp : nm.isEmpty = true
+        · simp only [hemp, if_true]
+          by_cases hmax : st.empties + 1 > Facts.headers_MaxEmptyElements
+          · simp only [hmax, if_true]
+            exact ⟨rfl, by intro s' h; cases h⟩
+          · simp only [hmax, if_false]
+            cases commaFound with
+            | false =>
+              simp only [Bool.not_false, if_true]
+              refine ⟨rfl, ?_⟩
+              intro s' h
+              simp only [Option.some.injEq] at h
+              subst h
+              exact hs
+            | true =>
+              simp only [Bool.not_true, Bool.false_eq_true, if_false]
+              exact ih rest { st with empties := st.empties + 1 } (hrest rfl) hs
+        · simp only [hemp, Bool.false_eq_true, if_false]
+          rw [indexAfter_refines set st.start hs nm]
+          simp only []
+          cases hidx : set.indexAfter st.start nm with
+          | none => exact ⟨rfl, by intro s' h; cases h⟩
+          | some i =>
+            simp only [Option.map_some]
+            have hi : i + 1 ≤ set.size := indexAfter_lt set st.start nm i hidx
+            have hcast : Int.ofNat i = ((i + 1 : Nat) : Int) - 1 := by simp only [Int.ofNat_eq_natCast]; omega
+            cases commaFound with
+            | false =>
+              simp only [Bool.not_false, if_true]
+              refine ⟨?_, ?_⟩
+              · simp only [Option.map_some, pure, Except.pure]
+                rw [hcast]
+              · intro s' h
+                simp only [Option.some.injEq] at h
+                subst h
+                exact hi
+            | true =>
+              simp only [Bool.not_true, Bool.false_eq_true, if_false]
+              have := ih rest { st with start := i + 1 } (hrest rfl) hi
+              rw [hcast]
+              exact this
+
+
+theorem checkLines_refines (set : SortedSet) (maxLen : Nat) : ∀ (lines : List Bytes) (st : Headers.CkState),
+    st.start ≤ set.size →
+    checkLines set maxLen lines ((st.start : Int) - 1, st.empties) = .ok (Headers.checkLines set maxLen lines st) := by
+  intro lines
+  induction lines with
+  | nil => intro st _; rfl
+  | cons l ls ih =>
+    intro st hs
+    obtain ⟨h1, h2⟩ := checkLine_refines set maxLen (l.length + 1) l st (by omega) hs
+    simp only [checkLines, Headers.checkLines, h1, bind, Except.bind]
+    cases hcl : Headers.checkLine set maxLen (l.length + 1) l st with
+    | none => rfl
+    | some st' =>
+      simp only [Option.map_some]
+      exact ih st' (h2 st' hcl)
+
+/-- **Refinement.** `headers.Check` on any sorted set and any list of field lines: `cutAtComma`, `TrimOWS` and
+`IndexAfter` (`set.elems[start:]` with `start = posOfLastNameSeen + 1 ≤ Size`, an invariant of the loop) never go
+out of range, every loop ends, and the verdict is the list-level model's. -/
+theorem check_refines (set : SortedSet) (acrhs : List Bytes) : check set acrhs = .ok (Headers.check set acrhs) := by
+  unfold check Headers.check
+  have := checkLines_refines set (Facts.headers_MaxOWSBytes + set.maxLen + Facts.headers_MaxOWSBytes + 1) acrhs
+    { start := 0, empties := 0 } (Nat.zero_le _)
+  simpa using this
 
 end Ix
 end Cors
